@@ -1099,6 +1099,19 @@ void process_option_line(const std::string &config_line, const char *filename,
    {
       auto vargs = split_args(args[1], filename, is_varg_sep);
 
+      // every part must be a small decimal number, std::stoi() would throw
+      // (or option_level() would overflow) otherwise
+      for (const auto &varg : vargs)
+      {
+         if (  varg.empty()
+            || varg.size() > 3
+            || varg.find_first_not_of("0123456789") != std::string::npos)
+         {
+            vargs.clear();
+            break;
+         }
+      }
+
       if (vargs.size() == 2)
       {
          compat_level = option_level(std::stoi(vargs[0]), std::stoi(vargs[1]));
